@@ -160,8 +160,8 @@ def mesh (j : Json) : R Json := do
       | _ => pure none
     let rs ← getArr j "R"
     let rs : List (Option Rat) := rs.map fun r => (asRat r).toOption
-    pure (jm (interferometerCmds 0 clip id (← getBool j "identity") (← getBool j "drop_identity")
-      (← getBool j "symmetric") reg bs1 rs bs2))
+    pure (jm (interferometerDecompose 0 clip id (← getBool j "identity") (← getBool j "drop_identity")
+      (← getBool j "symmetric") (getBoolD j "triangular" false) reg bs1 rs bs2))
   | k => throw s!"unknown mesh kind {k}"
 
 def handler (op : String) (j : Json) : Option (R Json) :=
